@@ -8,6 +8,7 @@ from vf.irsym import Rat
 from props.symutil import *
 from props.c09 import euler_xyz, emb, T33, H31, rot2, T44, H3
 from props import contracts
+from props.c14 import asb
 
 KEEP = [r'extractSHRT', r'extractAndRemoveScalingAndShear', contracts.LENGTH_RE]
 
@@ -120,19 +121,156 @@ def cases(T):
     return cs
 
 
+GUARD_RE = r'checkForZeroScaleInRow'
+TMAX = {4: Fraction((2 ** 24 - 1) * 2 ** 104), 8: Fraction((2 ** 53 - 1) * 2 ** 971)}
+
+
+def guard_spec(s, row, esz):
+    """checkForZeroScaleInRow(scl,row,false) over the reals: false exactly when |scl| < 1 and some |row[i]| >= max * |scl|  (squares, no abs)"""
+    s = R(s); mx2 = TMAX[esz] * TMAX[esz]
+    small = lt(rmul(s, s), rz(1))
+    big = OR(*[le(rmul(rz(mx2), rmul(s, s)), rmul(R(r), R(r))) for r in row])
+    return NOT(AND(small, big))
+
+
+def guard_weak(b, s, row):
+    """two consequences of guard_spec without the 1e308-sized constant: scl == 0 => false;  scl != 0 and every |row[i]| <= |scl| => true"""
+    s = R(s); s2 = rmul(s, s)
+    return [IMPLIES(eq(s, rz(0)), NOT(b)), IMPLIES(AND(ne(s, rz(0)), *[le(rmul(R(r), R(r)), s2) for r in row]), b)]
+
+
+def install_guard(sym):
+    """the guard as a summary (one Boolean instead of up to 27 paths per call): an arbitrary outcome constrained by guard_weak;
+    O4.guard_summary decides, on the guard's real body, that every real outcome satisfies those constraints"""
+    for name in sym.m.funcs:
+        n = name[1:]
+        if re.search(GUARD_RE, n) and n.startswith('_Z'):
+            dim = 3 if 'Vec3' in n else 2
+            esz = 4 if re.search(r'checkForZeroScaleInRowIf', n) else 8
+            def c(S, st, args, dim=dim, esz=esz):
+                if args[2] not in (0, False): raise Exception('guard summary is for exc == false')
+                sp, rp = args[0], args[1]
+                sv = st.mem[(sp.obj, sp.off)]
+                row = [st.mem[(rp.obj, rp.off + i * esz)] for i in range(dim)]
+                S.fresh += 1; b = z3.Bool('guard_ok_%d' % S.fresh)
+                st.pc += [c_ for c_ in guard_weak(b, sv, row) if c_ is not True]
+                return b
+            sym.contracts[n] = c
+
+
+def body_cases(T):
+    """the real body of extractAndRemoveScalingAndShear (only Vec::length() is a contract here)"""
+    cs = []
+    def setup(sym):
+        contracts.install(sym, sym.m); install_guard(sym); sym.check_divzero = False
+    def setup_dz(sym):
+        contracts.install(sym, sym.m); install_guard(sym)      # divisions by zero are paths of their own: a zero scale that slips past its guard shows up here
+    def lin(v, n): return [[v[n * i + j] for j in range(n - 1)] for i in range(n - 1)]
+    def degenerate(I, O, X):
+        A = lin(I['m'], 4)
+        return [('singular linear part => reported (false), nothing decomposed', IMPLIES(eq(det(A), rz(0)), NOT(asb(O['ret']))))]
+    def factor(I, O, X):
+        A = lin(I['m'], 4); Rm = lin(O['r'], 4); s = O['scl']; h = O['shr']; ok = asb(O['ret'])
+        cl = []
+        for i in range(3):
+            cl.append(('true => rotation row %d is unit' % i, IMPLIES(ok, eq(rdot(Rm[i], Rm[i]), rz(1)))))
+            for j in range(i + 1, 3): cl.append(('true => rotation rows %d,%d orthogonal' % (i, j), IMPLIES(ok, eq(rdot(Rm[i], Rm[j]), rz(0)))))
+        cl.append(('true => right-handed', IMPLIES(ok, eq(det(Rm), rz(1)))))
+        rec = [[rmul(s[0], Rm[0][c]) for c in range(3)],
+               [rmul(s[1], radd(rmul(h[0], Rm[0][c]), Rm[1][c])) for c in range(3)],
+               [rmul(s[2], radd(radd(rmul(h[1], Rm[0][c]), rmul(h[2], Rm[1][c])), Rm[2][c])) for c in range(3)]]
+        for i in range(3):
+            for c in range(3): cl.append(('true => scale*shear*rotation == input [%d][%d]' % (i, c), IMPLIES(ok, eq(rec[i][c], A[i][c]))))
+        return cl
+    F_ = Fraction
+    def mm3(A, Bm): return [[sum(A[i][k] * Bm[k][j] for k in range(3)) for j in range(3)] for i in range(3)]
+    QS = [('identity', [[1, 0, 0], [0, 1, 0], [0, 0, 1]]), ('axis_permutation', [[0, 1, 0], [0, 0, 1], [1, 0, 0]]), ('axis_flip', [[0, 0, -1], [0, -1, 0], [-1, 0, 0]]),
+          ('rational_rotation', mm3([[F_(4, 5), 0, F_(-3, 5)], [0, 1, 0], [F_(3, 5), 0, F_(4, 5)]], [[F_(12, 13), F_(5, 13), 0], [F_(-5, 13), F_(12, 13), 0], [0, 0, 1]]))]
+    for qname, Q in QS:
+        def fam(ps, Q=Q):
+            a, b, c, d, e, f = ps
+            L = [[a, rz(0), rz(0)], [b, c, rz(0)], [d, e, f]]
+            A = [[rsum(rmul(L[i][k], rz(Q[k][j])) for k in range(3)) for j in range(3)] for i in range(3)]
+            out = []
+            for i in range(3): out += A[i] + [rz(0)]
+            return out + [rz(F_(1, 2)), rz(-3), rz(2), rz(1)]
+        pre = lambda I: [AND(R(v).n >= -16, R(v).n <= 16) for v in I['m_p']]
+        def degenerate_p(I, O, X):
+            a, b, c, d, e, f = I['m_p']
+            return [('singular linear part => reported (false), nothing decomposed', IMPLIES(OR(eq(a, rz(0)), eq(c, rz(0)), eq(f, rz(0))), NOT(asb(O['ret'])))),
+                    ('regular linear part => decomposed (true)', IMPLIES(AND(ne(a, rz(0)), ne(c, rz(0)), ne(f, rz(0))), asb(O['ret'])))]
+        def samp(rng, inp):
+            inp['m_p'] = [F_(rng.randint(-32, 32), 8) or F_(1) for _ in range(6)]; return inp
+        A44 = [In('m', 16, param=(6, fam)), Int(0), Out('r', 16), Out('scl', 3), Out('shr', 3)]
+        bnd = 'linear part = lower-triangular L (six arbitrary reals in [-16,16]: every Gram-Schmidt outcome incl. each rank deficiency) times the pinned rotation %s; exc = false' % qname
+        cs.append(Case('O4.extractAndRemove44_degenerate_reported.%s.%s' % (qname, T), 'w_extract_remove44' + T, A44, degenerate_p, T=T, setup=setup_dz, pre=pre, sample=samp, nvalid=3, allow_divzero=False, budget=300, timeout_ms=20000, max_paths=5000, tier=('thorough' if qname == 'rational_rotation' else 'quick'), core=(qname != 'rational_rotation'),
+                       desc='real body of extractAndRemoveScalingAndShear(Matrix44): returns false exactly when the linear part is singular - each of the three zero-scale guards - and never divides by a zero scale', bounds=bnd))
+        cs.append(Case('O4.extractAndRemove44_factorisation.%s.%s' % (qname, T), 'w_extract_remove44' + T, A44, factor, T=T, setup=setup, pre=pre, sample=samp, nvalid=3, allow_divzero=True, budget=400, timeout_ms=20000, max_paths=5000, tier=('thorough' if qname == 'rational_rotation' else 'quick'), core=(qname != 'rational_rotation'),
+                       desc='real body of extractAndRemoveScalingAndShear(Matrix44): on success the remaining matrix is a right-handed rotation and scale*shear*rotation reproduces the input', bounds=bnd))
+    # ---- 2-D copy of the same algorithm
+    for qname, Q in (('identity', [[1, 0], [0, 1]]), ('quarter_turn', [[0, 1], [-1, 0]])):
+        def fam2(ps, Q=Q):
+            a, b, c = ps
+            L = [[a, rz(0)], [b, c]]
+            A = [[rsum(rmul(L[i][k], rz(Q[k][j])) for k in range(2)) for j in range(2)] for i in range(2)]
+            return A[0] + [rz(0)] + A[1] + [rz(0)] + [rz(F_(1, 2)), rz(-3), rz(1)]
+        pre2 = lambda I: [AND(R(v).n >= -16, R(v).n <= 16) for v in I['m_p']]
+        def degenerate2(I, O, X):
+            a, b, c = I['m_p']
+            return [('singular linear part => reported (false)', IMPLIES(OR(eq(a, rz(0)), eq(c, rz(0))), NOT(asb(O['ret'])))),
+                    ('regular linear part => decomposed (true)', IMPLIES(AND(ne(a, rz(0)), ne(c, rz(0))), asb(O['ret'])))]
+        def factor2(I, O, X):
+            A = lin(I['m'], 3); Rm = lin(O['r'], 3); s2 = O['scl']; h = O['shr'][0]; ok = asb(O['ret'])
+            cl = [('true => rotation row %d is unit' % i, IMPLIES(ok, eq(rdot(Rm[i], Rm[i]), rz(1)))) for i in range(2)]
+            cl += [('true => rotation rows orthogonal', IMPLIES(ok, eq(rdot(Rm[0], Rm[1]), rz(0)))), ('true => right-handed', IMPLIES(ok, eq(det(Rm), rz(1))))]
+            rec = [[rmul(s2[0], Rm[0][c]) for c in range(2)], [rmul(s2[1], radd(rmul(h, Rm[0][c]), Rm[1][c])) for c in range(2)]]
+            cl += [('true => scale*shear*rotation == input [%d][%d]' % (i, c), IMPLIES(ok, eq(rec[i][c], A[i][c]))) for i in range(2) for c in range(2)]
+            return cl
+        def samp2(rng, inp):
+            inp['m_p'] = [F_(rng.randint(-32, 32), 8) or F_(1) for _ in range(3)]; return inp
+        A33 = [In('m', 9, param=(3, fam2)), Int(0), Out('r', 9), Out('scl', 2), Out('shr', 1)]
+        bnd2 = 'linear part = lower-triangular 2x2 L (three arbitrary reals in [-16,16]) times the pinned rotation %s; exc = false' % qname
+        cs.append(Case('O4.extractAndRemove33_degenerate_reported.%s.%s' % (qname, T), 'w_extract_remove33' + T, A33, degenerate2, T=T, setup=setup_dz, pre=pre2, sample=samp2, nvalid=3, allow_divzero=False, budget=200, timeout_ms=20000,
+                       desc='real body of extractAndRemoveScalingAndShear(Matrix33): returns false exactly when the linear part is singular, and never divides by a zero scale', bounds=bnd2))
+        cs.append(Case('O4.extractAndRemove33_factorisation.%s.%s' % (qname, T), 'w_extract_remove33' + T, A33, factor2, T=T, setup=setup, pre=pre2, sample=samp2, nvalid=3, allow_divzero=True, budget=200, timeout_ms=20000,
+                       desc='real body of extractAndRemoveScalingAndShear(Matrix33): on success the remaining matrix is a right-handed rotation and scale*shear*rotation reproduces the input', bounds=bnd2))
+    def degenerate2g(I, O, X):
+        A = lin(I['m'], 3); dt = det(A)
+        return [('singular linear part => reported (false)', IMPLIES(eq(dt, rz(0)), NOT(asb(O['ret'])))), ('regular linear part => decomposed (true)', IMPLIES(ne(dt, rz(0)), asb(O['ret'])))]
+    G33 = [In('m', 9, fixed={2: 0, 5: 0, 8: 1}), Int(0), Out('r', 9), Out('scl', 2), Out('shr', 1)]
+    preg = lambda I: [AND(R(v).n >= -16, R(v).n <= 16) for v in I['m'] if not R(v).conc()]
+    cs.append(Case('O4.extractAndRemove33_degenerate_reported.general.%s' % T, 'w_extract_remove33' + T, G33, degenerate2g, T=T, setup=setup_dz, pre=preg, nvalid=3, allow_divzero=False, budget=300, timeout_ms=30000,
+                   desc='real body of extractAndRemoveScalingAndShear(Matrix33), every 2-D affine matrix: false exactly when the linear part is singular; no division by a zero scale', bounds='all real matrices with entries in [-16,16]; exc = false'))
+    cs.append(Case('O4.extractAndRemove33_factorisation.general.%s' % T, 'w_extract_remove33' + T, G33, factor2, T=T, setup=setup, pre=preg, nvalid=3, allow_divzero=True, budget=300, timeout_ms=30000,
+                   desc='real body of extractAndRemoveScalingAndShear(Matrix33), every 2-D affine matrix: on success a right-handed rotation remains and scale*shear*rotation reproduces the input', bounds='all real matrices with entries in [-16,16]; exc = false'))
+    return cs
+
+
 def build(chk):
     e = EngC(chk, 'decomp', keep_calls=KEEP)
     for T in ('d', 'f'):
         for c in cases(T):
             e.add(c)
+    e2 = EngC(chk, 'decomp', keep_calls=[contracts.LENGTH_RE, GUARD_RE])
+    for T in ('d', 'f'):
+        for c in body_cases(T):
+            if T == 'f' and chk.tier != 'thorough': continue
+            e2.add(c)
+    for T in ('d', 'f'):
+        esz = 8 if T == 'd' else 4
+        for dim in (3, 2):
+            e.add(Case('O4.guard_summary.Vec%d.%s' % (dim, T), 'w_checkzero%d%s' % (dim, T), [Val('scl'), In('row', dim), Int(0)],
+                       (lambda esz: lambda I, O, X: [('the guard returns false exactly when |scl| < 1 and some |row[i]| >= max*|scl|', (lambda sp: AND(IMPLIES(asb(O['ret']), sp), IMPLIES(sp, asb(O['ret']))))(guard_spec(I['scl'], I['row'], esz)))] + [('summary constraint %d holds for the real outcome' % k, w) for k, w in enumerate(guard_weak(asb(O['ret']), I['scl'], I['row']))])(esz),
+                       T=T, nvalid=0, budget=120, desc='checkForZeroScaleInRow(scl, Vec%d, false) returns false exactly when |scl| < 1 and some |row[i]| >= max*|scl| (the exact summary substituted for the guard inside extractAndRemoveScalingAndShear)' % dim,
+                       bounds='all real scl and row'))
     # guard kernel on IEEE floats
     eb = EngB(chk, 'decomp', vopts=dict(nvec=60, skip=tuple(n for n in eb_names())), validate=False)
     eb.variant('exact', only=['w_checkzero3f', 'w_checkzero2f'])
     chk.add(eb.ob('O3.checkForZeroScaleInRow_3', tier='thorough', core=False, **{}) if False else eb.ob('O3.checkForZeroScaleInRow_3', 'c12/guard.c', 'h_checkzero3', 'checkForZeroScaleInRow(scl,row): whenever it returns true every row[i]/scl is finite; false/domain_error exactly when |scl| < 1 and some |row_i| >= max*|scl|',
                   unwind=5, bounds='all finite float inputs', timeout=900, backends=('kissat', 'cadical'), tier='thorough', core=False))
-    chk.assumptions += ['compositional: extractSHRT and extractAndRemoveScalingAndShear are replaced by opaque callees that write arbitrary factor values and return an arbitrary bool; the recomposition wrappers are decided for every such outcome',
+    chk.assumptions += ['checkForZeroScaleInRow inside the extraction body is replaced by a summary (scl == 0 => false; scl != 0 and every |row[i]| <= |scl| => true), decided against its real body by O4.guard_summary', 'compositional: extractSHRT and extractAndRemoveScalingAndShear are replaced by opaque callees that write arbitrary factor values and return an arbitrary bool; the recomposition wrappers are decided for every such outcome',
                         'sin/cos of the extracted rotation angle(s): one pair per argument with s^2+c^2=1']
-    chk.outside += ['extractAndRemoveScalingAndShear itself (Gram-Schmidt with three nested square roots): scale*shear*rotation == input is not decided (prototype: nlsat unknown)',
+    chk.outside += ['extractAndRemoveScalingAndShear(Matrix44) on its real body: decided for lower-triangular linear parts times pinned axis rotations (quick) and a pinned rational rotation (thorough, budgeted); a fully general 3x3 linear part is not decided (nlsat unknown); the 2-D body is decided for every matrix',
                     'jacobiSVD, jacobiEigenSolver, min/maxEigenVector, procrustesRotationAndTranslation: sweeps repeat until floating-point convergence, no unwinding bound derivable from the code',
                     'computeRSMatrix, extractSHRT end-to-end: not yet attempted']
     chk.not_encodable += ['jacobiSVD / jacobiEigenSolver / procrustesRotationAndTranslation (data-dependent do-while convergence loops)']
